@@ -20,7 +20,9 @@ META = {
         "otherwise the array parser's Ok(h) / Err(custom(e)) (the slice parser TryFrom<&[u8]> is evaluated through); "
         "neither visitor overrides any other visit_* method; and every "
         "unwrap/expect/panic/index reachable from Deserialize::deserialize or a visitor is discharged (an unwrap of a "
-        "parse result that can fail in this configuration is a violation -- this rule found the repaired defect F1)."
+        "parse result that can fail in this configuration is a violation -- this rule found the repaired defect F1); and the two "
+        "parsers the visitors forward to are evaluated in each serde configuration: both validity gates present exactly when "
+        "strict-parser is enabled (R-16.4, the evaluation of C15's R-15.1 as a C16 obligation)."
     ),
     "trusted_base": ["rustc nightly front end", "serde's default Visitor methods return invalid_type errors", "serde format crates (JSON/CBOR/postcard) call the visitor methods as documented"],
     "assumptions": [],
@@ -36,6 +38,24 @@ def run(ctx, FS):
         switch(ctx, F)
         visitors(ctx, F)
         no_panic(ctx, F)
+        parsers_behind_visitors(ctx, F)
+    nserde = sum(1 for F in FS.values() if "serde" in F.features)
+    if nserde:
+        ctx.floor("R-16.4", 5000 * nserde, "parser evaluations (12580 per serde configuration counted on the pinned tree)")
+
+
+def parsers_behind_visitors(ctx, F):
+    """R-16.4: the visitors forward to the text parser and the array parser (R-16.2); C16's clause "with the strict parser, an
+    invalid checksum or length code is a deserialization error" then holds only if those two parsers, *in this serde
+    configuration*, carry both validity gates (and, without strict-parser, neither).  Decided by the same abstract evaluation
+    of the parsers that C15's R-15.1 uses, here as a C16 obligation."""
+    from . import c15
+    r = "R-16.4"
+    strict = "strict-parser" in F.features
+    ctx.rule(r, "the parsers the two visitors forward to reject an invalid checksum / length code exactly when strict-parser is enabled "
+                "(abstract evaluation of from_str_bytes and TryFrom<&[u8; N]> in every serde configuration)")
+    c15.text_gates(ctx, r, F, strict)
+    c15.binary_gates(ctx, r, F, strict)
 
 
 def impl_methods(F, self_prefix, trait):
